@@ -28,7 +28,7 @@ LEVEL_TEXT = ("Every sample the real sampler produces is replayed against an ind
               "frequencies over thousands of samples are tested against exact conditional probabilities.")
 LEVEL_NOTE = "Statistical part detects biases larger than the band width (about 0.05 at the quick tier, 0.025 at the thorough tier) only."
 TECHNIQUE = "runtime trace monitor on SampledFormula.add_atom/verify_evidence + reference-model oracle per sample + Hoeffding/Azuma tests"
-BUDGET = {"quick": 96, "thorough": 640}
+BUDGET = {"quick": 96, "thorough": 220}
 TIME_BUDGET = {"quick": 240, "thorough": 3300}
 CASE_TIMEOUT = 150
 WATCHDOG_FRACTION = 0.1
